@@ -50,7 +50,7 @@ example : let cf : Conf := { run := fun i => { cfg := { N := 1, retries := 0 }, 
     BuildsOk cf 0 ∧ BstSound cf g ∧
     (session cf .batch g [1, 0] [0, 0, 0]).trace = [(1, .build 1), (0, .build 0), (0, .start 1), (0, .record 1 1)] ∧
     projR 0 (session cf .batch g [1, 0] [0, 0, 0]).trace = [.start 1, .record 1 1] := by
-  refine ⟨Or.inr (by intro b hb; simp at hb; subst hb; rfl), bstSound_fresh _ _ (fun _ => rfl), by decide, by decide⟩
+  refine ⟨Or.inr (Or.inr (by intro b hb; simp at hb; subst hb; rfl)), bstSound_fresh _ _ (fun _ => rfl), by decide, by decide⟩
 
 /-- the same without build commands of its own: also no build event is attributed to `r` -/
 theorem c10_containment_nobuild (cf : Conf) (k : Kind) (g : G) (order cs : List Nat) (r : Nat)
